@@ -13,7 +13,7 @@ from __future__ import annotations
 
 import ast
 
-from .core import AnalysisError, Repo, Report, call_name, nested_defs, norm
+from .core import AnalysisError, Repo, Report, call_name, nested_defs, norm, own_nodes
 from .e7 import _delegation, LOSSY_CALLS
 from .sem import Scope, canon, ctext, outcomes
 
@@ -488,3 +488,343 @@ def rule_shared_eigenvalue_check(rep: Report, repo: Repo):
             break
     rep.check(chk is not None and (first_div is None or f.body.index(chk) < f.body.index(first_div)), R,
               f"{MOD}::solve_sylvester_diagonal no division precedes the shared-eigenvalue check", "", loc(chk or f))
+
+
+# ---------------------------------------------------------------------------
+# solve_sylvester_KPM wiring on resolved expressions
+# ---------------------------------------------------------------------------
+
+
+def rule_kpm_wiring(rep: Report, repo: Repo):
+    """The KPM solver's closures, with every local of the enclosing function resolved to what it was built from:
+    extended bases EXT = (*given, auxiliary), energies per basis, the complement projector over ALL of EXT, the
+    rescaling (a, b) shared by Hamiltonian and energies, and the block dispatch of the returned solver."""
+    from .core import nested_defs
+    from .paths import eval_bool
+    from .resolve import env_at, resolved, rtext
+    from .sem import Scope, canon, outcomes
+
+    R = "E7.kpm"
+    f = repo.find(f"{MOD}::solve_sylvester_KPM", R)
+    loc = lambda n: repo.loc(MOD, n)
+    params = [a.arg for a in f.args.args]
+    if params[:2] != ["h_0", "subspace_eigenvectors"]:
+        raise AnalysisError(R, f"solve_sylvester_KPM signature {params}")
+    inner = [d for d in nested_defs(f) if d.name != "solve_sylvester" and d in f.body]
+    outer = [d for d in f.body if isinstance(d, ast.FunctionDef) and isinstance(f.body[-1], ast.Return) and norm(f.body[-1].value) == d.name]
+    if len(outer) != 1:
+        raise AnalysisError(R, "the returned solver closure was not found")
+    outer = outer[0]
+    env_o = env_at(outer, f, keep_params=False)
+    AUX_ALTS = ("solver_options.get('auxiliary_vectors', np.zeros((h_0.shape[0], 0)))",)
+    ext_alts = [f"(*subspace_eigenvectors, {a})" for a in AUX_ALTS]
+    # the rescale unpacking: H', (a, b) = rescale(h_0, ...)
+    un = [s for s in f.body if isinstance(s, ast.Assign) and isinstance(s.value, ast.Call) and call_name(s.value) == "rescale"
+          and isinstance(s.targets[0], ast.Tuple) and len(s.targets[0].elts) == 2 and isinstance(s.targets[0].elts[1], ast.Tuple)
+          and len(s.targets[0].elts[1].elts) == 2]
+    if len(un) != 1:
+        raise AnalysisError(R, "`h_rescaled, (a, b) = rescale(h_0, ...)` not found")
+    H = norm(un[0].targets[0].elts[0])
+    A, B = (norm(e) for e in un[0].targets[0].elts[1].elts)
+    rep.check(rtext(un[0].value.args[0], env_at(un[0], f, keep_params=False)) == "h_0", R,
+              f"{MOD}::solve_sylvester_KPM rescales the unperturbed Hamiltonian", norm(un[0].value)[:80], loc(un[0]))
+
+    # -- dispatch of the returned solver ----------------------------------------------------------------------------
+    seen = {}
+    for yzero in (False, True):
+        for last in (False, True):
+            def atom(n):
+                t = norm(canon(n))
+                if t == "Y is zero":
+                    return yzero
+                if t == "Y is not zero":
+                    return not yzero
+                if isinstance(n, ast.Compare) and len(n.ops) == 1 and isinstance(n.ops[0], (ast.Eq, ast.NotEq)):
+                    l, r = norm(n.left), norm(n.comparators[0])
+                    if "index[1]" in (l, r):
+                        other = r if l == "index[1]" else l
+                        o_res = rtext(ast.parse(other, mode="eval").body, env_o)
+                        m = _LEN_MINUS_1.match(o_res)
+                        if m:
+                            seen.setdefault("last", set()).add(m.group(1))
+                            return last if isinstance(n.ops[0], ast.Eq) else not last
+                return None
+            outs = [o for o in outcomes(outer.body, None, env={}, atom=atom, expand=False)]
+            if len(outs) != 1 or outs[0].kind != "return":
+                raise AnalysisError(R, f"returned solver: {len(outs)} paths for (Y is zero={yzero}, last column={last}); "
+                                       "a condition was not understood")
+            v = outs[0].value
+            terms = []
+            def flat(e):
+                if isinstance(e, ast.BinOp) and isinstance(e.op, ast.Add):
+                    flat(e.left); flat(e.right)
+                else:
+                    terms.append(e)
+            flat(v)
+            seen[(yzero, last)] = sorted(rtext(t, env_o) for t in terms)
+    EIGS_ALTS = [f"[(Dagger(_v0) @ h_0 @ _v0).diagonal() for _v0 in {e}]" for e in ext_alts]
+    expl = [f"solve_sylvester_diagonal({eg}, {aux}, atol=solver_options.get('atol'))(Y, index)"
+            for eg in EIGS_ALTS for aux in [*AUX_ALTS, *[f"{e}[-1]" for e in ext_alts]]]
+    kpm_name = [d.name for d in inner]
+    ok_zero = seen[(True, False)] == ["zero"] and seen[(True, True)] == ["zero"]
+    ok_other = len(seen[(False, False)]) == 1 and seen[(False, False)][0] in expl
+    t_last = seen[(False, True)]
+    ok_last = len(t_last) == 2 and any(t in expl for t in t_last) and any(t in [f"{k}(Y, index)" for k in kpm_name] for t in t_last)
+    rep.check(ok_zero and ok_other and ok_last, R,
+              f"{MOD}::solve_sylvester_KPM implicit column block = KPM part + explicit auxiliary part; other blocks by the diagonal solver",
+              f"Y zero -> {seen[(True, True)]}; last column -> {[t[:60] for t in t_last]}; other -> {[t[:60] for t in seen[(False, False)]]}", loc(outer))
+    rep.check(ok_other, R, f"{MOD}::solve_sylvester_KPM explicit part uses the diagonal solver with the auxiliary vectors",
+              (seen[(False, False)] or [""])[0][:200], loc(outer))
+    lasts = seen.get("last", set())
+    rep.check(bool(lasts) and all(x in EIGS_ALTS for x in lasts), R, f"{MOD}::solve_sylvester_KPM the implicit column is the last block (len(energies) - 1)",
+              str([x[:80] for x in lasts]), loc(outer))
+
+    # -- the KPM part -------------------------------------------------------------------------------------------------
+    kp = [d for d in inner if any(isinstance(c, ast.Call) and call_name(c) == "greens_function" for c in ast.walk(d))]
+    if len(kp) != 1:
+        raise AnalysisError(R, "KPM closure (calling greens_function) not found")
+    kp = kp[0]
+    env_k = env_at(kp, f, keep_params=False)
+    for nm in (H, A, B):
+        env_k.pop(nm, None)
+    rets = [n for n in own_nodes(kp) if isinstance(n, ast.Return)]
+    if len(rets) != 1:
+        raise AnalysisError(R, "KPM closure: expected one return")
+    rv = resolved(rets[0].value, env_at(rets[0], kp, keep_params=True))
+    rv = resolved(rv, env_k)
+    ok = False
+    detail = norm(rv)[:200]
+    comp = None
+    if isinstance(rv, ast.Call) and call_name(rv) == "np.vstack" and len(rv.args) == 1 and isinstance(rv.args[0], (ast.ListComp, ast.GeneratorExp)):
+        comp = rv.args[0]
+    elif isinstance(rv, ast.Call) and call_name(rv) == "np.vstack" and len(rv.args) == 1 and isinstance(rv.args[0], ast.Call) \
+            and call_name(rv.args[0]) in ("list", "tuple") and isinstance(rv.args[0].args[0], (ast.ListComp, ast.GeneratorExp)):
+        comp = rv.args[0].args[0]
+    if comp is None or len(comp.generators) != 1:
+        raise AnalysisError(R, f"KPM closure returns `{detail[:80]}`: not a row-wise stack of Green's function applications")
+    g = comp.generators[0]
+    elt = comp.elt
+    ht_names = set()
+    if isinstance(g.iter, ast.Call) and call_name(g.iter) == "zip" and len(g.iter.args) == 2 and isinstance(g.target, ast.Tuple) \
+            and isinstance(elt, ast.Call) and call_name(elt) == "greens_function" and len(elt.args) >= 3 and not g.ifs:
+        e_it, y_it = (norm(x) for x in g.iter.args)
+        tv = [norm(t) for t in g.target.elts]
+        er_alts = [f"[(_v2 - {B}) / {A} for _v2 in {eg}[:-1]][index[0]]" for eg in EIGS_ALTS] + \
+                  [f"[(_v0 - {B}) / {A} for _v0 in {eg}[:-1]][index[0]]" for eg in EIGS_ALTS]
+        proj = [f"ComplementProjector(np.hstack({e}))" for e in ext_alts]
+        y_alts = [f"Y @ {p} / {A}" for p in proj]
+        ok_e, ok_y = e_it in er_alts, y_it in y_alts
+        ok = [norm(a) for a in elt.args[1:3]] == tv and isinstance(elt.args[0], ast.Name)
+        detail = f"rows `{y_it[:160]}`, energies `{e_it[:160]}`"
+        if isinstance(elt.args[0], ast.Name):
+            ht_names.add(elt.args[0].id)
+    else:
+        raise AnalysisError(R, f"KPM closure: row-wise application `{norm(comp)[:80]}` not understood")
+    rep.check(ok, R, f"{MOD}::solve_sylvester_KPM row a of the solution = G(E_a)(H^T) applied to row a of Y P / a (energies of block index[0])",
+              f"greens_function({', '.join(norm(a)[:20] for a in elt.args[:3])}) over `{norm(g.target)}` in zip(energies, rows)", loc(kp))
+    rep.check(ok_y, R, f"{MOD}::solve_sylvester_KPM projects out all explicit and auxiliary vectors",
+              f"rows are `{y_it[:200]}`; required Y @ ComplementProjector(np.hstack((*given, auxiliary))) / {A}", loc(kp))
+    rep.check(ok_e, R, f"{MOD}::solve_sylvester_KPM rescales the explicit energies with the same (a, b) as the Hamiltonian",
+              f"energies are `{e_it[:200]}`", loc(kp))
+    # H^T: every assignment of the operator handed to greens_function is H'.T or a storage-format change of itself
+    okT = bool(ht_names)
+    vals = []
+    for nm in ht_names:
+        for n in own_nodes(f):
+            if isinstance(n, ast.Assign) and any(isinstance(t, ast.Name) and t.id == nm for t in n.targets):
+                t = norm(n.value)
+                vals.append(t)
+                if t not in (f"{H}.T", f"{H}.transpose()", f"{nm}.tocsr()", f"{nm}.tocsc()", f"sparse.csr_array({nm})"):
+                    okT = False
+    rep.check(okT and any(v in (f"{H}.T", f"{H}.transpose()") for v in vals), R,
+              f"{MOD}::solve_sylvester_KPM applies the Green's function of H^T (rows of Y are solved as columns)", str(vals), loc(f))
+
+
+import re as _re
+_LEN_MINUS_1 = _re.compile(r"^len\((.*)\) - 1$")
+
+
+# ---------------------------------------------------------------------------
+# solve_sylvester_direct wiring on resolved paths
+# ---------------------------------------------------------------------------
+
+
+def rule_direct_wiring(rep: Report, repo: Repo):
+    """Dispatch and formulas of the solver returned by solve_sylvester_direct, decided per concrete block index on
+    resolved expressions; the Green's-function families are identified by how they are constructed."""
+    from .e2c import _const_eval
+    from .resolve import env_at, resolved, rtext
+    from .sem import bind_args, canon, outcomes
+
+    R = "E7.direct"
+    outer = repo.find(f"{MOD}::solve_sylvester_direct", R)
+    loc = lambda n: repo.loc(MOD, n)
+    if not (isinstance(outer.body[-1], ast.Return) and isinstance(outer.body[-1].value, ast.Name)):
+        raise AnalysisError(R, "solve_sylvester_direct does not return a local closure")
+    f = [d for d in outer.body if isinstance(d, ast.FunctionDef) and d.name == outer.body[-1].value.id]
+    gg = [d for d in outer.body if isinstance(d, ast.FunctionDef) and d.name == "grouped_greens_functions"]
+    if len(f) != 1 or len(gg) != 1:
+        raise AnalysisError(R, "nested solver / grouped_greens_functions of solve_sylvester_direct not found")
+    f, gg = f[0], gg[0]
+    env_o = env_at(f, outer)
+    NORM_ALTS = ("_normalize_subspace_eigenvectors(tuple(eigenvectors))", "_normalize_subspace_eigenvectors(eigenvectors)")
+    RE_ALTS, LE_ALTS = [f"{n}[0]" for n in NORM_ALTS], [f"{n}[1]" for n in NORM_ALTS]
+    P_ALTS = [f"ComplementProjector(np.hstack({r}), np.hstack({l}))" for r, l in zip(RE_ALTS, LE_ALTS)]
+    EIG_ALTS = [f"[np.diag(Dagger(_v1) @ h_0 @ _v0) for _v0, _v1 in zip({r}, {l}, strict=True)]" for r, l in zip(RE_ALTS, LE_ALTS)]
+
+    # explicit part: the diagonal solver over diag(L_i^H H_0 R_i)
+    sd = [n for n in own_nodes(outer) if isinstance(n, ast.Call) and call_name(n) == "solve_sylvester_diagonal"]
+    if len(sd) != 1:
+        raise AnalysisError(R, f"{len(sd)} calls of solve_sylvester_diagonal in solve_sylvester_direct")
+    env_sd = env_at(sd[0], outer)
+    eig_text = rtext(sd[0].args[0], env_sd) if sd[0].args else ""
+    rep.check(eig_text in EIG_ALTS, R, f"{MOD}::solve_sylvester_direct explicit energies are diag(L_i^H H_0 R_i)", eig_text[:200], loc(sd[0]))
+    kw = {k.arg: norm(k.value) for k in sd[0].keywords}
+    rep.check(len(sd[0].args) == 1 and kw == {"atol": "eigenvalue_atol"}, R,
+              f"{MOD}::solve_sylvester_direct explicit part = solve_sylvester_diagonal(eigenvalues, atol=eigenvalue_atol)", norm(sd[0])[:100], loc(sd[0]))
+    explicit_text = rtext(sd[0], env_sd)
+
+    # families of Green's functions, by construction
+    def family(node):
+        """-> set of resolved constructions a family expression may denote (None = absent)."""
+        if isinstance(node, ast.Name):
+            vals = [n.value for n in own_nodes(outer) if isinstance(n, ast.Assign)
+                    and any(isinstance(t, ast.Name) and t.id == node.id for t in n.targets)]
+            if not vals:
+                raise AnalysisError(R, f"family `{node.id}` has no assignment")
+            out = set()
+            for v in vals:
+                out |= family_expr(v)
+            return out
+        return family_expr(node)
+
+    def family_expr(v):
+        if isinstance(v, ast.IfExp):
+            return family_expr(v.body) | family_expr(v.orelse)
+        if isinstance(v, ast.Constant) and v.value is None:
+            return {None}
+        if isinstance(v, ast.Call) and call_name(v) == gg.name:
+            b = bind_args(gg, v)
+            if b is None:
+                raise AnalysisError(R, f"cannot bind `{norm(v)[:60]}`")
+            env_v = env_o
+            return {tuple(sorted((k, rtext(x, env_v)) for k, x in b.items()))}
+        return {("other", norm(v)[:120])}
+
+    def want_family(op, rk, lk, conj):
+        p = [a.arg for a in gg.args.args]
+        return [tuple(sorted(zip(p, (op, r, l, conj)))) for r, l in zip(rk, lk)]
+    WANT = {"right": want_family("h_0.T", LE_ALTS, RE_ALTS, "True"), "left": want_family("h_0", RE_ALTS, LE_ALTS, "False")}
+
+    def parse_term(e):
+        """-> (sign, structure); projector and families are recognised by their resolved construction."""
+        if isinstance(e, ast.UnaryOp) and isinstance(e.op, ast.USub):
+            sg, t = parse_term(e.operand)
+            return -sg, t
+        if isinstance(e, ast.Name) and e.id == "Y":
+            return 1, ("Y",)
+        if isinstance(e, ast.BinOp) and isinstance(e.op, ast.MatMult):
+            if rtext(e.left, env_o) in P_ALTS:
+                sg, t = parse_term(e.right)
+                return sg, ("P@", t)
+            if rtext(e.right, env_o) in P_ALTS:
+                sg, t = parse_term(e.left)
+                return sg, ("@P", t)
+        if isinstance(e, ast.Call) and call_name(e) in ("np.column_stack", "np.vstack") and len(e.args) == 1 \
+                and isinstance(e.args[0], (ast.ListComp, ast.GeneratorExp)) and len(e.args[0].generators) == 1:
+            comp = e.args[0]
+            gen = comp.generators[0]
+            if isinstance(gen.iter, ast.Call) and call_name(gen.iter) == "zip" and len(gen.iter.args) == 2 \
+                    and isinstance(gen.target, ast.Tuple) and len(gen.target.elts) == 2 and not gen.ifs:
+                gfn, vecn = (norm(x) for x in gen.target.elts)
+                fam, src = gen.iter.args
+                elt, sg = comp.elt, 1
+                if isinstance(elt, ast.UnaryOp) and isinstance(elt.op, ast.USub):
+                    elt, sg = elt.operand, -1
+                if isinstance(elt, ast.Call) and norm(elt.func) == gfn and len(elt.args) == 1:
+                    arg = elt.args[0]
+                    if isinstance(arg, ast.UnaryOp) and isinstance(arg.op, ast.USub):
+                        arg, sg = arg.operand, -sg
+                    if norm(arg) == vecn and isinstance(fam, ast.Subscript):
+                        if isinstance(src, ast.Attribute) and src.attr == "T":
+                            axis, inner = "columns", src.value
+                        else:
+                            axis, inner = "rows", src
+                        stack = {"np.column_stack": "columns", "np.vstack": "rows"}[call_name(e)]
+                        s2, t = parse_term(inner)
+                        fams = family(fam.value) - {None}
+                        which = "other"
+                        for nm, alts in WANT.items():
+                            if fams and all(x in alts for x in fams):
+                                which = nm
+                        if which == "other":
+                            which = "other:" + "; ".join(str(x)[:160] for x in sorted(fams, key=str))
+                        return sg * s2, ("G", which, norm(fam.slice), axis, stack, t)
+        raise AnalysisError(R, f"implicit-branch expression not understood: `{norm(e)[:100]}`")
+
+    results = {}
+    N = 2
+    n_name_alts = {f"len({e})" for e in EIG_ALTS}
+    for a in range(N + 1):
+        for b in range(N + 1):
+            if a == N and b == N:
+                continue
+            sub = {"index[0]": a, "index[1]": b}
+            def atom(n):
+                t = norm(canon(n))
+                if t == "Y is zero":
+                    return False
+                if t == "Y is not zero":
+                    return True
+                r = resolved(n, env_o)
+                s2 = dict(sub)
+                for x in ast.walk(r):
+                    if isinstance(x, ast.Call) and norm(x) in n_name_alts:
+                        s2[norm(x)] = N
+                return _const_eval(r, s2)
+            outs = [o for o in outcomes(f.body, None, env={}, atom=atom, expand=False)]
+            rets = [o for o in outs if o.kind == "return"]
+            if len(rets) != 1:
+                raise AnalysisError(R, f"nested solver: {len(rets)} returning paths for block ({a}, {b}) of {N} explicit blocks "
+                                       f"(conditions: {[norm(t)[:50] for o in outs for t, _p in o.conds]})")
+            for o in outs:
+                if o.kind == "raise" and "NotImplementedError" not in norm(o.value):
+                    raise AnalysisError(R, f"nested solver raises `{norm(o.value)[:60]}` for block ({a}, {b})")
+            kind = "explicit" if (a < N and b < N) else ("left" if a == N else "right")
+            results.setdefault(kind, set()).add(norm(resolved(rets[0].value, {})))
+            v = rets[0].value
+            where = rets[0].node
+            if kind == "explicit":
+                got = rtext(v, env_o)
+                inst = f"{MOD}::solve_sylvester_direct explicit block pairs are solved by the diagonal solver"
+                if got == f"{explicit_text}(Y, index)":
+                    rep.ok(R, inst, f"block ({a}, {b})", loc(where))
+                else:
+                    rep.fail(R, inst, f"block ({a}, {b}) returns `{got[:160]}`", loc(where))
+            elif kind == "left":
+                got = parse_term(v)
+                want = (-1, ("P@", ("G", "left", "index[1]", "columns", "columns", ("P@", ("Y",)))))
+                inst = f"{MOD}::solve_sylvester_direct left-implicit: T = -P [G_b(H_0) (P Y)_b]_b  (columns, negated, projected before and after)"
+                if got == want:
+                    rep.ok(R, inst, f"block ({a}, {b}): {got}", loc(where))
+                else:
+                    rep.fail(R, f"{MOD}::solve_sylvester_direct left-implicit branch computes {got}", f"required {want}: "
+                             "(H_B - E_b) T_b = Y_b  =>  T_b = -G_b(H_0) Y_b, column by column, inside range(P); the family must be "
+                             "grouped_greens_functions(h_0, right, left, conjugate_kernel=False)", loc(where))
+            else:
+                got = parse_term(v)
+                want = (1, ("@P", ("G", "right", "index[0]", "rows", "rows", ("@P", ("Y",)))))
+                inst = f"{MOD}::solve_sylvester_direct right-implicit: T = [G_a(H_0^T) (Y P)_a]_a P  (rows, not negated, projected before and after)"
+                if got == want:
+                    rep.ok(R, inst, f"block ({a}, {b}): {got}", loc(where))
+                else:
+                    rep.fail(R, f"{MOD}::solve_sylvester_direct right-implicit branch computes {got}", f"required {want}: "
+                             "T_a (E_a - H_B) = Y_a  =>  T_a^T = G_a(H_0^T) Y_a^T, row by row, inside range(P); the family must be "
+                             "grouped_greens_functions(h_0.T, left, right, conjugate_kernel=True)", loc(where))
+    # Y is zero -> zero
+    def atom0(n):
+        t = norm(canon(n))
+        return True if t == "Y is zero" else (False if t == "Y is not zero" else None)
+    z = [o for o in outcomes(f.body, None, env={}, atom=atom0, expand=False)]
+    rep.check(len(z) == 1 and z[0].kind == "return" and norm(z[0].value) == "zero", R,
+              f"{MOD}::solve_sylvester_direct an absent right-hand side gives an absent solution", "", loc(f))
